@@ -3,11 +3,11 @@
 //! Runs random operation histories on the real `TrieBuf` (in-memory and file-backed), on a read-only
 //! `Trie` and on `Layered`, prints one transcript record per step (the whole history so far plus the
 //! queries asked and their answers; the Lean model replays the history) and evaluates the property
-//! itself against a reference map (`Ref`) — the ORACLE.  Exact lookups and enumerations have no known
-//! finding left (F10 `UpdatePersisted` and `MaxCodePointPhrase` are fixed: any recurrence is `new`).  A
-//! failing *prefix* lookup is classified exactly: it is attributed to the known finding F36 only if the
-//! observed answer equals what the known defect predicts (`Tracker::candidates`) *and* the state is
-//! inside the finding's class; anything else is `new`.
+//! itself against a reference map (`Ref`) — the ORACLE.  No known finding is left: F10 `UpdatePersisted`,
+//! `MaxCodePointPhrase` and F36 `FuzzyOverTombstoneOrPending` (prefix lookups over pending / tombstoned
+//! entries, fixed by 097161a) are repaired, so every failing exact lookup, prefix lookup or enumeration is
+//! reported as `new`.  `Tracker` follows the layering of the real structure for COVERAGE statistics only
+//! (how often the generated histories visit the states the fixed findings lived in).
 use chewing::dictionary::{
     Dictionary, DictionaryBuilder, DictionaryMut, Layered, LookupStrategy, Phrase, Trie, TrieBuf,
     TrieBuilder,
@@ -181,8 +181,8 @@ impl Ref {
     }
 }
 
-/// What the *known* defects of `TrieBuf` predict (classification only): the layering of the real
-/// structure — persisted snapshot, pending entries, tombstones — tracked at the level of sets.
+/// The layering of the real structure — persisted snapshot, pending entries, tombstones — tracked at
+/// the level of sets; used for coverage statistics only (no verdict depends on it).
 #[derive(Clone, Default)]
 struct Tracker {
     file_backed: bool,
@@ -192,21 +192,6 @@ struct Tracker {
     pending: BTreeMap<PK, Val>,
     grave: BTreeSet<PK>,
     dirty: bool,
-}
-
-/// the de-duplication loop on (text, value) candidates: a later candidate replaces an earlier one
-/// with the same text only if its frequency is strictly higher
-fn dedup_max(c: Vec<(String, Val)>) -> BTreeMap<String, Val> {
-    let mut r: BTreeMap<String, Val> = BTreeMap::new();
-    for (t, v) in c {
-        match r.get(&t) {
-            Some(old) if v.0 <= old.0 => {}
-            _ => {
-                r.insert(t, v);
-            }
-        }
-    }
-    r
 }
 
 impl Tracker {
@@ -276,29 +261,10 @@ impl Tracker {
     fn any_shadowed(&self) -> bool {
         self.pending.keys().any(|pk| self.snap.contains_key(pk) && !self.grave.contains(pk))
     }
-    /// candidates of `entries_iter_for(q)` in order (what the known defect F36 predicts for a prefix
-    /// lookup): the persisted phrases of the matching keys that have neither a tombstone nor a pending
-    /// entry *keyed by the query*, then the pending entries of exactly the query key
-    fn candidates(&self, q: &[u16], fuzzy: bool) -> Vec<(String, Val)> {
-        let mut c = vec![];
-        for ((key, t), v) in &self.snap {
-            let m = if fuzzy { fuzzy_match(key, q) } else { key == q };
-            let qk = (q.to_vec(), t.clone());
-            if m && !self.grave.contains(&qk) && !self.pending.contains_key(&qk) {
-                c.push((t.clone(), *v));
-            }
-        }
-        for ((key, t), v) in &self.pending {
-            if key == q && !self.grave.contains(&(q.to_vec(), t.clone())) {
-                c.push((t.clone(), *v));
-            }
-        }
-        c
-    }
-    /// class F36 `FuzzyOverTombstoneOrPending`: the pending tree or the graveyard holds a key other
-    /// than the query that matches it, or a tombstone / a pending entry of the query hides a persisted
-    /// phrase of another matching key
-    fn in_fuzzy_class(&self, q: &[u16]) -> bool {
+    /// coverage only (the states of the fixed finding F36, former class `FuzzyOverTombstoneOrPending`):
+    /// the pending tree or the graveyard holds a key other than the query that matches it, or a
+    /// tombstone / a pending entry of the query would hide a persisted phrase of another matching key
+    fn in_former_fuzzy_class(&self, q: &[u16]) -> bool {
         let other = |key: &Key| key != q && fuzzy_match(key, q);
         let hides = |k: &Key, t: &String| k == q && self.snap.keys().any(|(k2, t2)| other(k2) && t2 == t);
         self.pending.keys().any(|(k, _)| other(k))
@@ -376,16 +342,11 @@ fn check_triebuf(cx: &mut Ctx, kind: &str, d: &dyn Dictionary, r: &Ref, tr: &Tra
             Some(g) => g.len() == fspec.len() && g.iter().all(|(t, v)| fspec.get(t).map_or(false, |vs| vs.contains(v))),
             None => false,
         };
+        if tr.in_former_fuzzy_class(k) {
+            cx.bump("prefix_lookups_over_pending_or_tombstone");
+        }
         if !ok {
-            let pred = dedup_max(tr.candidates(k, true));
-            let class = if fgot.as_ref() != Some(&pred) {
-                "new"
-            } else if tr.in_fuzzy_class(k) {
-                "FuzzyOverTombstoneOrPending"
-            } else {
-                "new"
-            };
-            cx.fail(class, format!("{kind} [{hist}] lookup {} fuzzy: got {} expected(map) {:?}", key_s(k), obs_s(&fall), fspec));
+            cx.fail("new", format!("{kind} [{hist}] lookup {} fuzzy: got {} expected(map) {:?}", key_s(k), obs_s(&fall), fspec));
         }
         // first n = prefix of the full answer; asking twice gives the same answer
         for (fz, full) in [(false, &all), (true, &fall)] {
@@ -913,26 +874,11 @@ fn run_layered(cx: &mut Ctx, p: &Pools, rng: &mut Rng, len: usize, file: bool) {
                     for (t, f, _) in &full {
                         dup |= got.insert(t.clone(), *f).is_some();
                     }
+                    if fz && (a_tr.in_former_fuzzy_class(k) || u_tr.in_former_fuzzy_class(k)) {
+                        cx.bump("layered_prefix_lookups_over_pending_or_tombstone");
+                    }
                     if dup || got != want {
-                        // what the known defect F36 of the TrieBuf layers predicts
-                        let pred: BTreeMap<String, u32> = {
-                            let mut c: Vec<(String, Val)> = a_tr.candidates(k, fz);
-                            for ((key, t), v) in &b_ref {
-                                if m(key) {
-                                    c.push((t.clone(), (v.0, 0)));
-                                }
-                            }
-                            c.extend(u_tr.candidates(k, fz));
-                            dedup_max(c).into_iter().map(|(t, v)| (t, v.0)).collect()
-                        };
-                        let class = if dup || got != pred {
-                            "new"
-                        } else if fz && (a_tr.in_fuzzy_class(k) || u_tr.in_fuzzy_class(k)) {
-                            "FuzzyOverTombstoneOrPending"
-                        } else {
-                            "new"
-                        };
-                        cx.fail(class, format!("{kind} [{hs}] lookup {} fuzzy={}: got {} expected text->freq {:?}", key_s(k), fz, obs_s(&full), want));
+                        cx.fail("new", format!("{kind} [{hs}] lookup {} fuzzy={}: got {} expected text->freq {:?}", key_s(k), fz, obs_s(&full), want));
                     }
                     // stable order: an identically built dictionary and a second call give the same sequence
                     if lookup(&twin, k, usize::MAX, fz) != full || lookup(&lay, k, usize::MAX, fz) != full {
@@ -1009,16 +955,24 @@ fn main() {
         Op::Update(ce4.clone(), "測".into(), 50, 7),
     ];
     guarded(&mut cx, "F10 witness", |cx| run_triebuf(cx, &p, &mut Rng::new(1), true, Some((vec![ce4.clone()], s)), 0));
-    // F36 (known, class FuzzyOverTombstoneOrPending): the prefix lookup ignores the tombstone of the
-    // removed entry and never sees pending entries
+    // F36 (fixed by 097161a; was class FuzzyOverTombstoneOrPending): the prefix lookup honours the tombstone
+    // of a removed persisted entry, sees pending entries under other matching keys, and reports an updated
+    // persisted entry with its new (lower) value
     let s = vec![
         Op::Add(ce4.clone(), "測".into(), 100, Some(2)),
         Op::Flush,
         Op::Reopen,
         Op::Remove(ce4.clone(), "測".into()),
         Op::Add(ce4.clone(), "冊".into(), 1, Some(1)),
+        Op::Update(ce4.clone(), "測".into(), 50, 7),
+        Op::Flush,
+        Op::Reopen,
+        Op::Update(ce4.clone(), "測".into(), 3, 8),
+        Op::Add(k[1].clone(), "測".into(), 2, Some(1)),
     ];
-    guarded(&mut cx, "F36 witness", |cx| run_triebuf(cx, &p, &mut Rng::new(1), true, Some((vec![ce4.clone(), c.clone()], s)), 0));
+    guarded(&mut cx, "F36 witness", |cx| run_triebuf(cx, &p, &mut Rng::new(1), true, Some((vec![ce4.clone(), c.clone(), k[1].clone()], s)), 0));
+    let s = vec![Op::Add(ce4.clone(), "測".into(), 1, Some(2)), Op::Remove(ce4.clone(), "測".into())];
+    guarded(&mut cx, "F36 witness (in-memory)", |cx| run_triebuf(cx, &p, &mut Rng::new(1), false, Some((vec![ce4.clone(), c.clone()], s)), 0));
     // MaxCodePointPhrase (fixed by 2c45871): a pending phrase beginning with U+10FFFF is looked up like any other
     let s = vec![
         Op::Add(ce4.clone(), "\u{10FFFF}".into(), 1, Some(0)),
